@@ -6,6 +6,10 @@
 (*               earlier changes left                                       *)
 (*   fails     - some step fails (after none / some changes applied)        *)
 (*   plain     - none of these                                              *)
+(*   repeat    - the same change given twice, and the second time matters   *)
+(*   inner     - (built from templates three calls deep) an earlier change  *)
+(*               rewrites code INSIDE a place that a later change compares  *)
+(*               with a repeated metavariable                               *)
 EXTENDS History, Json, Randomization
 CONSTANTS OutFile, PerClass, NFiles, NSeqs    \* candidates are drawn from NFiles random files x NSeqs random change sequences
 Pick(n, S) == IF n = 0 \/ Cardinality(S) <= n THEN S ELSE RandomSubset(n, S)
@@ -22,10 +26,25 @@ Class(f, rs) ==
   ELSE IF \E i \in 2..Len(rs) : Matches(m[i], rs[i]) /\ ~Matches(f, rs[i]) THEN "dependent"
   ELSE IF \E i \in 2..Len(rs) : ~Matches(m[i], rs[i]) /\ Matches(f, rs[i]) THEN "removed"
   ELSE "plain"
-All == {<<f, rs>> : f \in Pick(NFiles, Files), rs \in Pick(NSeqs, RuleSeqs)}
+All == {x \in {<<f, rs>> : f \in Pick(NFiles, Files), rs \in Pick(NSeqs, RuleSeqs)} : WellFormedRun(x[1], x[2])}
+Mk(kind, f, g) == [t |-> kind, from |-> f, to |-> g, guard |-> "", newpkg |-> ""]
+W(t) == Call("w", <<t>>)
+Inner ==
+  \* f(w(f(v, 1)), w(g(v2))): '-f(x, 1)' '+g(x)' turns the inner call into g(v); then the outer call is an
+  \* instance of '-f(y, y)' exactly when v = v2
+  {<<[pkg |-> "p", body |-> <<Call(f, <<W(Call(f, <<v, Lit(1)>>)), W(Call(g, <<v2>>))>>)>>], <<Mk("lit2", f, g), Mk("dup", f, "z")>>>> :
+      f \in Atoms, g \in Atoms, v \in Leaves, v2 \in Leaves}
+  \* f(w(g(v)), w(z(v2))): renaming g to z inside makes the two arguments the same code
+  \cup {<<[pkg |-> "q", body |-> <<Call(f, <<W(Call(g, <<v>>)), W(Call("z", <<v2>>))>>), Call(g, <<Lit(2)>>)>>], <<Mk("ren", g, "z"), Mk("dup", f, g)>>>> :
+      f \in Atoms, g \in Atoms, v \in Leaves, v2 \in Leaves}
+  \* ... and a third change that binds what the second produced
+  \cup {<<[pkg |-> "p", body |-> <<Call(f, <<W(Call(f, <<v, Lit(1)>>)), W(Call(g, <<v>>))>>)>>], <<Mk("lit2", f, g), Mk("dup", f, g), Mk("ren", g, "z")>>>> :
+      f \in Atoms, g \in Atoms, v \in Leaves}
 Rec(x) == [pkg |-> x[1].pkg, body |-> x[1].body, rules |-> x[2], class |-> Class(x[1], x[2])]
+InnerRec(x) == [pkg |-> x[1].pkg, body |-> x[1].body, rules |-> x[2], class |-> "inner"]
 Emit == ndJsonSerialize(OutFile, SetToSeq(UNION {{Rec(x) : x \in Pick(PerClass, {y \in All : Class(y[1], y[2]) = c})} :
-                                                    c \in {"dependent", "removed", "fails", "plain", "repeat"}}))
+                                                    c \in {"dependent", "removed", "fails", "plain", "repeat"}}
+                                          \cup {InnerRec(x) : x \in Pick(PerClass, {y \in Inner : WellFormedRun(y[1], y[2])})}))
 VARIABLE emitted
 EmitInit == /\ emitted = Emit /\ file0 = [pkg |-> "p", body |-> <<>>] /\ rules = <<>> /\ cur = file0 /\ k = 1 /\ st = "done" /\ log = <<>>
 EmitSpec == EmitInit /\ [][UNCHANGED <<emitted, vars>>]_<<emitted, vars>>
